@@ -84,7 +84,7 @@ theorem tie_normalizeSetVersion_new (today : Date) (pat v : Str) (hp : isNewPatt
     (ce : CmdEnv) (s : CState) :
     GenL.normalizeSetVersion today pat v ce s = (s, ofV2 (BV.normalizeSetVersion pat v today)) := by
   unfold GenL.normalizeSetVersion BV.normalizeSetVersion
-  simp only [TieL.isNewPattern_gen', TieL.isNewPattern_gen'c, hp, if_true, pyV2ParseVersionInfo, pyV2FormatVersion]
+  simp only [TieL.isNewPattern_gen', TieL.isNewPattern_gen'c, TieL.isNewPattern_gen'o, TieL.isNewPattern_gen'oc, TieL.isOldPattern_gen, TieL.isOldPattern_genc, hp, if_true, Bool.not_true, Bool.not_false, Bool.false_eq_true, if_false, pyV2ParseVersionInfo, pyV2FormatVersion]
   cases hpv : parseVersionInfo v pat today with
   | error e => cases e <;> cmd_simp [liftV2, CStop.isA, Exc.isPatternError]
   | ok vi =>
@@ -100,7 +100,7 @@ theorem tie_normalizeSetVersion_legacy (today : Date) (pat v : Str) (hp : isNewP
     (ce : CmdEnv) (s : CState) :
     GenL.normalizeSetVersion today pat v ce s = (s, ofV1 (v1NormalizeSetVersion pat v)) := by
   unfold GenL.normalizeSetVersion v1NormalizeSetVersion
-  simp only [TieL.isNewPattern_gen', TieL.isNewPattern_gen'c, hp, Bool.false_eq_true, if_false, pyV1ParseVersionInfo, pyV1FormatVersion]
+  simp only [TieL.isNewPattern_gen', TieL.isNewPattern_gen'c, TieL.isNewPattern_gen'o, TieL.isNewPattern_gen'oc, TieL.isOldPattern_gen, TieL.isOldPattern_genc, hp, Bool.false_eq_true, if_false, Bool.not_true, Bool.not_false, if_true, pyV1ParseVersionInfo, pyV1FormatVersion]
   cases hpv : v1ParseVersionInfo v pat with
   | error e => cases e <;> cmd_simp [liftV1, CStop.isA, Exc.isPatternError]
   | ok vi =>
